@@ -47,10 +47,10 @@ Section ProgB3.
 
   Lemma rt_fini_spec t l r (Q : option unit -> VB -> Prop) :
     In r (vb_own l) -> vb_limbo l = None -> vb_blk l = None -> vb_dead l = None -> vb_cur l = None -> vb_full l = None ->
-    vb_move l = Some (r, None) ->
+    vb_move l = Some (r, None) -> vb_arr l <> Some r ->
     Q (Some tt) (set_move l None) -> (forall l', Q None l') -> dsafeB c t (rt_fini c r) l Q.
   Proof.
-    intros Hr Hl Hb Hd Hc Hf Hm HQ HN. unfold rt_fini.
+    intros Hr Hl Hb Hd Hc Hf Hm Har HQ HN. unfold rt_fini.
     apply dsafeB_xloc. intros g a tr Hv. unfold viewB in Hv. exists (aux_fini a t r (r_head (grec g r))).
     split; [eapply frame_bvs; reflexivity|]. split; [intros J; apply S_fini_start; auto; rewrite Hv; auto|].
     unfold viewB. cbn [bvs aux_fini fst snd]. rewrite fn_same, Hv. generalize (rch a r) as lb. generalize (r_head (grec g r)) as hd. clear g a tr Hv. intros hd lb.
@@ -65,7 +65,8 @@ Section ProgB3.
   (** ** help_scan: moving the cells of one block *)
   Record mv_ok (me : nat) (l : VB) : Prop := {
     mo_me : In me (vb_own l); mo_pend : vb_pend l = None; mo_dead : vb_dead l = None; mo_full : vb_full l = None;
-    mo_freed : vb_freed l = []; mo_blk : vb_blk l = None }.
+    mo_freed : vb_freed l = []; mo_blk : vb_blk l = None; mo_arr : vb_arr l = Some me;
+    mo_s0 : vb_s0 l = None; mo_mine : vb_mine l = Some me }.
 
   Lemma move_cells_spec t me src ob b (Q : option unit -> VB -> Prop) : src <> me -> forall n i l,
     vb_cur l = Some (b, i, n) -> vb_move l = Some (src, ob) -> mv_ok me l ->
@@ -74,13 +75,13 @@ Section ProgB3.
   Proof.
     intros Hne. induction n as [|n IH]; intros i l Hc Hm Hok HQ HN; cbn [move_cells].
     - assert (E : l = set_cur l (Some (b, i, 0))) by (destruct l; cbn in *; subst; reflexivity). rewrite E. apply HQ.
-    - destruct Hok as [M1 M2 M3 M4 M5 M6].
+    - destruct Hok as [M1 M2 M3 M4 M5 M6 M7 M8 M9].
       apply dsafeB_xloc. intros g a tr Hv. unfold viewB in Hv.
       set (p := nth i (rb_cells (grb g b)) 0). set (a1 := aux_take a t src b i n p).
       exists (aux_push a1 t me p (snd (rt_push c me p g))). split.
       { intros t' Ht. unfold viewB. cbn. now rewrite !fn_other by exact Ht. }
       split.
-      { intros J. assert (J1 : JB c g a1 tr) by (apply (G_take c g a tr t src ob b i n); [rewrite Hv; exact Hm|rewrite Hv; exact Hc|rewrite Hv; exact M2|rewrite Hv; exact M3|exact J]).
+      { intros J. assert (J1 : JB c g a1 tr) by (apply (G_take c g a tr t src ob b i n); [rewrite Hv; exact Hm|rewrite Hv; exact Hc|rewrite Hv; exact M2|rewrite Hv; exact M3|rewrite Hv; exact M8|rewrite Hv, M9; congruence|exact J]).
         apply S_push; auto; unfold a1; cbn [bvs aux_take]; rewrite fn_same, Hv; cbn; auto; try congruence. }
       unfold viewB, a1. cbn [bvs aux_push aux_arr aux_take fst snd]. rewrite !fn_same, Hv. generalize (snd (rt_push c me p g)) as ok. clear a1. clearbody p. clear g a tr Hv. intros ok.
       apply dsafeB_xbind.
@@ -104,7 +105,7 @@ Section ProgB3.
     intros Hne. induction fuel as [|fuel IH]; intros block l Hm Hc Hok HQ HN; destruct block as [b|]; cbn [move_blocks].
     - apply dsafeB_fuel_out. apply HN.
     - assert (E : l = set_move l (Some (src, None))) by (destruct l; cbn in *; subst; reflexivity). rewrite E. apply HQ.
-    - pose proof Hok as [M1 M2 M3 M4 M5 M6].
+    - pose proof Hok as [M1 M2 M3 M4 M5 M6 M7 M8 M9].
       apply dsafeB_xloc. intros g a tr Hv. unfold viewB in Hv.
       exists (setv a t (set_cur (bvs a t) (Some (b, 0, if oeqb (Some b) (r_cb (grec g src)) then r_cc (grec g src) else RB)))).
       split; [eapply frame_bvs; reflexivity|]. split; [intros J; apply (S_mb1 c g a tr t src b _ eq_refl); auto; rewrite Hv; auto|].
